@@ -94,7 +94,7 @@ static void child(const std::string& line, const char* outpath) {
     vsched::set_abort_handler([&](vsched::Result& r) {
         Ev e("ssort"); e.raw("in", BB(strs)).raw("out", "[]").boolean("haslcp", false).raw("lcp", "[]").num("problems", (long long)r.problems.size() + 1)
             .raw("problem_text", "[\"" + r.blocked_summary + "\"]").boolean("deadlock", true).str("params", "?").num("threads", 0).num("strategy", 0).num("steps", r.steps);
-        e.emit(out); out.flush(); _exit(0);
+        e.emit(out); out.flush(); { vf::cov_flush(); _exit(0); }
     });
     uint64_t x = seed * 2654435761u + 12345;
     auto rnd = [&](int m) { x = x * 6364136223846793005ULL + 1442695040888963407ULL; return (int)((x >> 33) % m); };
@@ -104,7 +104,7 @@ static void child(const std::string& line, const char* outpath) {
         one(out, strs, pset, rnd(2), 1 + rnd(4), x, ST[rnd(4)]);
     }
     out.flush();
-    _exit(0);
+    { vf::cov_flush(); _exit(0); }
 }
 
 int main(int argc, char** argv) {
